@@ -13,7 +13,8 @@ read through `get_statistics()` only.
 
 Protocol (one case = one schema + one Chaperone):
   schema <spec>                          spec: name:kind,… kinds int float str bool li ls oi os oid osd id sd n{…}
-  new <ctor strategies>                  "none" | "-" (empty list) | letters from s e l r
+  new <ctor strategies>                  "none" | "omit" (argument not passed) | "-" (empty list) | letters from s e l r; the
+                                         per-call strategies of fold / foldx take the same tokens
   [env …]                                inserted by run_impl (recorded library calls of the next fold)
   fold <hex raw> <call strategies>       -> valid structId errPresent rawEcho calls=[…]
   foldx <hex raw> <call strategies>      -> valid structId errPresent rawEcho strategy confidence [notes] [attempts] calls=[…]
@@ -794,8 +795,12 @@ class C11(Prop):
         except Exception:
             return None
 
+    def ctor_kw(self, tok, FS=None) -> dict:
+        """the `strategies` argument of a constructor call: `omit` = the caller does not pass it at all"""
+        return {} if tok == "omit" else {"strategies": self.strategies_of(tok, FS)}
+
     def strategies_of(self, tok, FS=None):
-        if tok == "none":
+        if tok in ("none", "omit"):
             return None
         if tok == "-":
             return []
@@ -956,9 +961,9 @@ class C11(Prop):
                 emit(line, "ok")
             elif t[0] == "new" and len(t) == 2:
                 try:
-                    ch = names.Chaperone(strategies=self.strategies_of(t[1], names.FoldingStrategy), silent=True)
+                    ch = names.Chaperone(**self.ctor_kw(t[1], names.FoldingStrategy), silent=True)
                     chs.append(ch)
-                    owns.append(list(t[1]) if t[1] not in ("none", "-") else list("selr"))
+                    owns.append(list(t[1]) if t[1] not in ("none", "-", "omit") else list("selr"))
                     ctor = "".join(owns[-1])
                     emit(line, "ok")
                 except Exception as e:      # an observation, judged like every other one
@@ -967,9 +972,9 @@ class C11(Prop):
                 try:
                     Sub = type("TunedChaperone", (names.Chaperone,), {})
                     self.apply_tables(Sub, t[2], t[3])
-                    ch = Sub(strategies=self.strategies_of(t[1]), silent=True)
+                    ch = Sub(**self.ctor_kw(t[1]), silent=True)
                     chs.append(ch)
-                    owns.append(list(t[1]) if t[1] not in ("none", "-") else list("selr"))
+                    owns.append(list(t[1]) if t[1] not in ("none", "-", "omit") else list("selr"))
                     ctor = "".join(owns[-1])
                     emit(line, "ok")
                 except Exception as e:
@@ -1046,12 +1051,12 @@ class C11(Prop):
             elif t[0] == "newh" and len(t) == 4 and (t[2] == "-" or t[2] in CO_FNS) and (t[3] == "-" or t[3] in MISFOLD_FNS):
                 try:
                     cell, cellm = [None, S], [None, None]      # on_misfold is per instance: it folds for the class in force
-                    ch = names.Chaperone(strategies=self.strategies_of(t[1], names.FoldingStrategy),
+                    ch = names.Chaperone(**self.ctor_kw(t[1], names.FoldingStrategy),
                                      co_chaperones=({S: make_co(t[2], cell)} if t[2] != "-" else None),
                                      on_misfold=(make_mf(t[3], cellm) if t[3] != "-" else None), silent=True)
                     cell[0] = cellm[0] = ch
                     chs.append(ch)
-                    owns.append(list(t[1]) if t[1] not in ("none", "-") else list("selr"))
+                    owns.append(list(t[1]) if t[1] not in ("none", "-", "omit") else list("selr"))
                     ctor = "".join(owns[-1])
                     register(len(chs) - 1)
                     if t[2] != "-":
@@ -1263,7 +1268,7 @@ class C11(Prop):
                 err = None
                 r = None
                 try:
-                    r = (ch.fold if t[0] == "fold" else ch.fold_enhanced)(raw, S, strat)
+                    r = (ch.fold if t[0] == "fold" else ch.fold_enhanced)(raw, S, *([] if t[2] == "omit" else [strat]))
                 except Exception as e:
                     err = e
                 finally:
@@ -1467,7 +1472,7 @@ class C11(Prop):
             # this schema on this instance, by the protocol lines) makes of it
             if x.get("text") is not None:
                 raw = x["text"]
-            eff = x["strat"] if x["strat"] not in ("none", "-") else x["ctor"]   # the instance's own list, per protocol
+            eff = x["strat"] if x["strat"] not in ("none", "-", "omit") else x["ctor"]   # the instance's own list, per protocol
             enhanced = x["op"] == "foldx"
             used = None
             if enhanced and r.strategy_used is not None:
@@ -1525,7 +1530,7 @@ class C11(Prop):
                 clean = plain_validate(S, real_json.loads(raw))
             except Exception:
                 clean = None
-            if clean is not None and "s" in eff and not (x.get("ambiguous") and x["strat"] in ("none", "-")):
+            if clean is not None and "s" in eff and not (x.get("ambiguous") and x["strat"] in ("none", "-", "omit")):
                 if not r.valid:
                     out.append(Violation("clean_json_accepted", "valid (strict is among the strategies)", "invalid", idx))
                 elif eff[:1] == "s":
@@ -1548,7 +1553,8 @@ class C11(Prop):
                     out.append(Violation("strict_has_full_confidence", "1.0", repr(c), idx))
             # "the plain and enhanced folds agree on validity and structure"
             # same instance, same configuration (no table / strategy-list / schema change in between)
-            key = (x["raw"], x["strat"], x["ctor"], id(S), x["inst"], x["epoch"])
+            sk = "none" if x["strat"] in ("none", "omit", "-") else x["strat"]     # all three: the instance's own list
+            key = (x["raw"], sk, x["ctor"], id(S), x["inst"], x["epoch"])
             pairs.setdefault(key, {})[x["op"]] = (idx, r)
         for key, d in pairs.items():
             if "fold" in d and "foldx" in d:
@@ -1785,7 +1791,7 @@ class C11(Prop):
     def rand_strats(self, rng):
         x = rng.random()
         if x < 0.2:
-            return "none"
+            return "none" if x < 0.08 else "omit"
         if x < 0.25:
             return "-"
         if x < 0.3:
@@ -1828,7 +1834,7 @@ class C11(Prop):
             hooked = rng.random() < 0.3      # user callbacks: co-chaperones for the schema, on_misfold
             typo = rng.random() < 0.25       # string values with typographic punctuation / invisible characters
             wrapped = rng.random() < 0.3     # the instance is (also) handed to the library's own wrappers
-            ctor_strats = self.rand_strats(rng) if rng.random() < 0.25 else "none"
+            ctor_strats = self.rand_strats(rng) if rng.random() < 0.25 else rng.choice(["none", "omit"])
             lines = ["schema " + self.spec_of(fields)] + ([f"via {rng.choice('to')}"] if rng.random() < 0.15 else []) + [
                      (f"newh {ctor_strats} {self.rand_co(rng)} {self.rand_mf(rng)}" if hooked and rng.random() < 0.5
                       else "new " + ctor_strats)]
@@ -1845,7 +1851,7 @@ class C11(Prop):
                     y = rng.random()
                     if y < 0.3 and n_inst < 4:
                         lines.append("agent" if rng.random() < 0.15 else
-                                     "new " + (self.rand_strats(rng) if rng.random() < 0.25 else rng.choice(["none", "none", "-"])))
+                                     "new " + (self.rand_strats(rng) if rng.random() < 0.25 else rng.choice(["none", "omit", "-"])))
                         n_inst += 1
                     elif y < 0.55:
                         lines.append(f"use {rng.randrange(n_inst)}")
@@ -1874,7 +1880,7 @@ class C11(Prop):
                             lines.append(f"use {rng.randrange(n_inst)}")
                     if rng.random() < 0.2:
                         lines.append(f"assignl {rng.randrange(n_lists)}" if n_lists and rng.random() < 0.4 else
-                                     "assign " + rng.choice(["-", "s", "re", "ls", "selr", "rs", "e", self.rand_strats(rng).replace("none", "-")]))
+                                     "assign " + rng.choice(["-", "s", "re", "ls", "selr", "rs", "e", self.rand_strats(rng).replace("none", "-").replace("omit", "-")]))
                     if rng.random() < 0.35:
                         lines.append("tune " + rng.choice(["reverse", "clear", "remove:s", "remove:s", "remove:e", "remove:r",
                                                            "append:s", "append:r", "append:l", "remove:l"]))
@@ -1982,8 +1988,8 @@ class C11(Prop):
             ws_cases.append({"lines": [f"schema {spec}", "new none", f"foldx {hexs(raw)} s", f"fold {hexs(raw)} r",
                                        f"foldx {hexs(raw)} le"], "note": "str.strip() code points"})
         ctor_cases = []
-        for ctor in ["none", "-", "s", "r", "le", "rs"]:
-            for call in ["none", "-", "e", "sl"]:
+        for ctor in ["none", "omit", "-", "s", "r", "le", "rs"]:
+            for call in ["none", "omit", "-", "e", "sl"]:
                 raw = "x {'a': 1} y"
                 ctor_cases.append({"lines": [f"schema {spec}", f"new {ctor}", f"fold {hexs(raw)} {call}",
                                              f"foldx {hexs(raw)} {call}", "stats", "resetstats", "stats",
@@ -2134,12 +2140,12 @@ class C11(Prop):
                 wrap_cases.append({"lines": L, "note": "an instance handed to the library's own wrappers (ChaperoneLoop constructed / run, "
                                                        "BioAgent's organelle), then used directly on typographic / invisible characters"})
         for v in "to":
-            for ctor in ["none", "rs", "-"]:
+            for ctor in ["none", "omit", "rs", "-"]:
                 L = [f"schema {wspec}", f"via {v}", f"new {ctor}"]
                 for d in docs[:6] + docs[-1:]:
-                    L += [f"fold {hexs(d)} none", f"foldx {hexs(d)} none"]
+                    L += [f"fold {hexs(d)} omit", f"foldx {hexs(d)} none"]
                 L += ["loop", f"heal 1 1/10 {hexs('nope')},{hexs(docs[0])}", f"foldx {hexs(docs[1])} ls", "stats",
-                      f"newh {ctor} - ok", f"foldx {hexs(docs[0])} none", f"fold {hexs('nope')} none", "stats"]
+                      f"newh {ctor} - ok", f"foldx {hexs(docs[0])} omit", f"fold {hexs('nope')} none", "stats"]
                 wrap_cases.append({"lines": L, "note": "the classes as the package exports them (operon_ai, operon_ai.organelles, operon_ai.healing)"})
         for co in ["redact", "brace"]:
             clean, prose3, bad = '{"s": "v12", "a": 4}', 'so {"s": "w", "a": 34} ok', "nope"
